@@ -41,10 +41,11 @@ FromLog(st, cfg, ob) ==
      rt |-> ob.rt, cfg |-> cfg, mode |-> "trace", script |-> <<>>, err |-> ""]
 
 Rt0(cfg) == [k \in 1..cfg.K |-> [n \in 1..cfg.N |-> 0]]
-Obs0(cfg) == [rt |-> Rt0(cfg), gb |-> <<>>, seen |-> <<>>, att |-> <<>>,
+Obs0(cfg) == [rt |-> Rt0(cfg), gb |-> <<>>, seen |-> <<>>, att |-> <<>>, hist |-> <<>>,
               busy |-> [n \in 1..cfg.N |-> 0], tot |-> [n \in 1..cfg.N |-> 0]]
 \* observer at the initial state of a trace: the initial tracker state is first seen at date 0
-ObsInit(tr) == [Obs0(tr.cfg) EXCEPT !.seen = << <<<<tr.init.trk.a, tr.init.trk.b, tr.init.trk.m>>, 0>> >>]
+ObsInit(tr) == [Obs0(tr.cfg) EXCEPT !.seen = << <<<<tr.init.trk.a, tr.init.trk.b, tr.init.trk.m>>, 0>> >>,
+                                     !.hist = << <<0, <<tr.init.trk.a, tr.init.trk.b, tr.init.trk.m>>>> >>]
 
 \* fields compared between spec successor and log
 CmpFields == {"now", "created", "accepted", "completed", "nexit", "arr", "and", "ann", "anc",
@@ -82,7 +83,8 @@ Verdict ==
     [tid |-> Tr.tid, n |-> l, outcome |-> Tr.outcome,
      fails |-> AddFails(fails, F_C14_final(Tr.cfg, LoggedState(l), Tr.outcome)
                                \cup F_C18_final(Tr.cfg, LoggedState(l), Tr.outcome, obs.seen, Tr.final.ttd)
-                               \cup F_C04_final(Tr.cfg, LoggedState(l), Tr.outcome, obs, Tr.final.util), l),
+                               \cup F_C04_final(Tr.cfg, LoggedState(l), Tr.outcome, obs, Tr.final.util)
+                               \cup F_C17_final(Tr.cfg, Tr.outcome, obs.hist, Tr.final.probs), l),
      wits |-> wits, drift |-> drift, taint |-> taint]
 
 \* initial state of a trace: invariants judged on it, and compared with the spec's Init
